@@ -17,7 +17,10 @@ source breaks only the theorems about that detector:
   web    lib_trainer/detection_rules/website_detection.py: detect_website, website_detection
          -> coq/gen/DetectWeb_gen.v    (proofs: theories/DetectGenProofsWeb.v)
   kbd    lib_trainer/detection_rules/keyboard_walk.py: find_keyboard_row_column,
-         is_next_on_keyboard, interesting_keyboard, detect_keyboard_walk
+         is_next_on_keyboard, interesting_keyboard, _detect_first_keyboard_walk (the first
+         walk of a password) and detect_keyboard_walk (the loop over the walks that
+         replaced the recursion when R24 was repaired; the old recursive shape is no
+         longer accepted: fail closed)
          -> coq/gen/DetectKbd_gen.v    (proofs: theories/DetectGenProofsKbd.v)
 
 The sources are only parsed (`ast`), never imported or executed.  The output targets the
@@ -943,7 +946,14 @@ def _coq_struct(t):
 
 
 TD.EXTRA_COQ_TYPE_FUNS.append(_coq_struct)
-TD.EXTRA_COQ_TYPES.update({BOARD: "pyboard", BOARDLIST: "list pyboard", CHARLIST: "Str.str"})
+STRLISTLIST = "strlistlist"        # a list of lists of strings (detected_per_part)
+TD.EXTRA_COQ_TYPES.update({BOARD: "pyboard", BOARDLIST: "list pyboard", CHARLIST: "Str.str",
+                           STRLISTLIST: "list (list Str.str)"})
+TD.TYPE_RANK[STRLISTLIST] = 7.7
+TD.LIST_OF[STRLIST] = STRLISTLIST
+TD.ELEM[STRLISTLIST] = STRLIST
+TD.CONCRETE_LISTS.append(STRLISTLIST)
+TD.LISTS = tuple(TD.LISTS) + (STRLISTLIST,)
 TD.TYPE_RANK.update({CHARLIST: 3.2, BOARDLIST: 8.7})
 TD.LIST_OF[BOARD] = BOARDLIST
 TD.ELEM[BOARDLIST] = BOARD
@@ -954,7 +964,7 @@ for _v in RECORDS:
     TD.ELEM[DICT(_v)] = KV(_v)
 
 RESERVED3 = set("""pyboard b_name b_rows brow dict d_get d_set d_has d_keys d_pop row_index mem_c mem_str filter
-existsb kb_us kb_jcuken""".split())
+existsb kb_us kb_jcuken lpop""".split())
 
 
 def proj(text, i, n):
@@ -980,7 +990,12 @@ class FT3(FT2):
                function itself: recursion with fuel), evaluated before the statement;
                `x is None` for a variable that is never None is False, and an `if` whose test
                is then statically False is not translated (dead code).
-    statements d = {} ; d[k] = record;  d.pop(k, None);  for k in d / for k in list(d) /
+               a list of lists of strings (l.append(list of strings) on an owned `[]`).
+    statements x = l.pop() on a list the function owns (IndexError -> raises);  a variable bound to
+               a T first and to "T or None" later (by a call that returns one) is "T or None" from
+               its first binding on;  `x is not None` / `x is None` of a variable that is never None
+               are True / False;
+               d = {} ; d[k] = record;  d.pop(k, None);  for k in d / for k in list(d) /
                for k, v in d.items() (the dict iterated directly must not change in the body);
                l.append(c) for a charlist;  boards.append(f()) for a list of boards."""
 
@@ -1065,6 +1080,13 @@ class FT3(FT2):
     def expr(self, e, env, H):
         if id(e) in getattr(self, "as_iter", {}):
             return self.as_iter[id(e)]
+        # `x is None` / `x is not None` for a variable that is never None
+        if isinstance(e, ast.Compare) and len(e.ops) == 1 and isinstance(e.ops[0], (ast.Is, ast.IsNot)) \
+                and isinstance(e.comparators[0], ast.Constant) and e.comparators[0].value is None \
+                and isinstance(e.left, ast.Name):
+            t = env.types.get(e.left.id)
+            if t is not None and not is_opt(t) and t not in (NONE, LABEL, PV):
+                return ("false" if isinstance(e.ops[0], ast.Is) else "true"), BOOL
         # f(args)
         if self.fun_spec(e, env) is not None:
             head, ret = self.fun_call(e, env, H)
@@ -1169,7 +1191,7 @@ class FT3(FT2):
 
     def truth(self, e, env, H):
         if isinstance(e, ast.Name) and (is_dict(env.types.get(e.id))
-                                        or env.types.get(e.id) in (CHARLIST, OSTRLIST, BOARDLIST, EMPTYLIST, EMPTYDICT)):
+                                        or env.types.get(e.id) in (CHARLIST, OSTRLIST, BOARDLIST, STRLISTLIST, EMPTYLIST, EMPTYDICT)):
             return "nonempty %s" % e.id
         return super().truth(e, env, H)
 
@@ -1230,14 +1252,50 @@ class FT3(FT2):
             for x, ty in zip(targets, rets):
                 if not isinstance(x, ast.Name) or x.id in names:
                     self.fail(s, "unsupported assignment target")
+                old = env.types.get(x.id)
+                if is_opt(ty) and old == ty[1]:
+                    # the variable was bound to a T before and is "T or None" now: it is "T or None" from its
+                    # first binding on (next pass)
+                    if self.opttypes.get(x.id, ty) != ty:
+                        self.fail(s, "%r is None or values of different types" % x.id)
+                    self.opttypes[x.id] = ty
+                    self.retry = True
+                    del env.types[x.id]
                 self.bind_var(s, x.id, ty, env)
                 names.append(x.id)
             text = self.line(ind, "call (%s) (fun %s =>" % (head, tuple_text(names)[1]), s)
             text += _close(self.block(rest, env, ctx, ind, at), ")")
             return self.wrap(H, ind, text)
+        # x = e for a variable that a later statement binds to "T or None" (learnt in an earlier pass):
+        # the variable is "T or None" from here on
+        if isinstance(t, ast.Name) and t.id in self.opttypes and is_opt(self.opttypes[t.id]) \
+                and env.types.get(t.id) is None and not (isinstance(v, ast.Constant) and v.value is None) \
+                and self.fun_spec(v, env) is None:
+            H = []
+            uid = self.uid
+            text, ty = self.expr(v, env, H)
+            if ty == self.opttypes[t.id][1] and ty in (STR, Z, BOOL):
+                self.check_name(s, t.id)
+                env.types[t.id] = self.opttypes[t.id]
+                out = self.line(ind, "let %s := Some %s in" % (t.id, _paren(text)), s)
+                return self.wrap(H, ind, out + self.block(rest, env, ctx, ind, at))
+            self.uid = uid
+        # x = l.pop(): the last element of a list the function owns (IndexError -> raises)
+        if isinstance(t, ast.Name) and isinstance(v, ast.Call) and isinstance(v.func, ast.Attribute) \
+                and v.func.attr == "pop" and not v.args and not v.keywords and isinstance(v.func.value, ast.Name) \
+                and env.types.get(v.func.value.id) in TD.CONCRETE_LISTS:
+            l = v.func.value.id
+            tl = env.types[l]
+            if l not in env.owned:
+                self.fail(s, "pop on a list the function does not own")
+            if t.id == l:
+                self.fail(s, "unsupported assignment target")
+            self.bind_var(s, t.id, TD.ELEM[tl], env)
+            text = self.line(ind, "call (lpop %s) (fun '(%s, %s) =>" % (l, l, t.id), s)
+            return text + _close(self.block(rest, env, ctx, ind, at), ")")
         if isinstance(t, ast.Name) and isinstance(v, ast.Name):
             tv = env.types.get(v.id)
-            if is_dict(tv) or tv in (CHARLIST, BOARDLIST, EMPTYDICT, OSTRLIST):
+            if is_dict(tv) or tv in (CHARLIST, BOARDLIST, EMPTYDICT, OSTRLIST, STRLISTLIST):
                 self.fail(s, "assignment of a %s to another name (aliasing) is not supported" % tname(tv))
         if isinstance(t, ast.Name):
             x = t.id
@@ -1417,7 +1475,12 @@ KB_SPECS = [
          params=[DICT(POS), DICT(POS)], ret=DICT(RUN), expr_call=True),
     dict(file=KB_FILE, py="interesting_keyboard", coq="py_interesting_keyboard",
          params=[CHARLIST], ret=BOOL, expr_call=True),
-    dict(file=KB_FILE, py="detect_keyboard_walk", coq="py_detect_keyboard_walk", recursive=True,
+    # the first walk of a password: (sections, found, detected keyboards, what remains to be parsed or None)
+    dict(file=KB_FILE, py="_detect_first_keyboard_walk", coq="py_detect_first_keyboard_walk",
+         params=[STR, Z], ret=TUP(SECLIST, STRLIST, STRLIST, OPT(STR)), expr_call=True),
+    # the loop over the walks (`while remaining is not None`) and the fold of the detected keyboards
+    # (`while detected_per_part`): fuel = one more than the length of the password (the proofs show it suffices)
+    dict(file=KB_FILE, py="detect_keyboard_walk", coq="py_detect_keyboard_walk",
          fuel="S (length {0})", params=[STR, Z], defaults=[4], ret=TUP(SECLIST, STRLIST, STRLIST)),
 ]
 
